@@ -296,8 +296,11 @@ def run(ctx) -> None:
                 if isinstance(c, ast.Call) and any(isinstance(a, ast.Name) and a.id == ipar for a in c.args):
                     for tgt in res.resolve_call(c, f, cha=False):
                         if is_conclusive_predicate(tgt):
-                            neg = isinstance(t.ast, ast.UnaryOp) and isinstance(t.ast.op, ast.Not)
-                            guards.append((t, "F" if neg else "T", tgt))
+                            e_, neg = t.ast, False
+                            while isinstance(e_, ast.UnaryOp) and isinstance(e_.op, ast.Not):
+                                e_, neg = e_.operand, not neg
+                            if e_ is c:      # the test is the predicate itself under an even/odd number of negations
+                                guards.append((t, "F" if neg else "T", tgt))
         inst = f"{mname}: a concluded invocation is refused before any change"
         ok_ = False
         for t, lab, tgt in guards:
